@@ -13,7 +13,7 @@ from . import c13 as C13
 PROPERTY = 'C08'
 LEVEL = 'exploration'
 RULE = ('(i) fragment sets: 1-4 fragments per set, atomistic (G-mol + G-render) or coarse (named graphs), each atom with 0-3 '
-        'descriptors in any order, orders 0-3, all four kinds, labelled or not, leading or not, around ring digits: '
+        'descriptors in any order, orders 0-3, all four kinds, labelled or not, leading or not, around ring digits, 12 % with a group whose bonds are written : between upper-case atoms: '
         'read_fragments(write_cgsmiles_fragments(F)) must give fragments isomorphic to F on element / node name, charge, '
         'aromatic flag, ORDERED descriptor list per atom and bond order. (ii) complete strings from the C01 / C10 / C06 '
         'generators (cut, shared, multi-level, coarse last level): write_cgsmiles(resolver.molecule, resolver.fragment_dicts) '
